@@ -75,9 +75,9 @@ fn gen_fanout_bench(rng: &mut Rng) -> Case {
     let leaves = rng.range(260, 330) as usize;
     c.nodes.clear();
     let port: Vec<Edge> = (0..leaves).map(|i| Edge { cid: 60_000 + i as u32, target: Target::Node((i + 1) as u16), map: i % 7 == 0, filter: None }).collect();
-    c.nodes.push(NodeSpec { name: "hub".into(), parent: None, cap: 16, registered: true, dead: false, outs: vec![port], reqs: vec![], init: vec![], on: vec![vec![Op::Send { port: 0, kind: 0 }]], panic_at: None, late_mailbox: false, reply_take: None });
+    c.nodes.push(NodeSpec { name: "hub".into(), parent: None, cap: 16, registered: true, dead: false, outs: vec![port], reqs: vec![], init: vec![], on: vec![vec![Op::Send { port: 0, kind: 0 }]], panic_at: None, late_mailbox: false, reply_take: None, sync_inputs: false });
     for i in 0..leaves {
-        c.nodes.push(NodeSpec { name: format!("leaf{}", i), parent: None, cap: *rng.pick(&[1u8, 2, 16]), registered: true, dead: false, outs: vec![], reqs: vec![], init: vec![], on: vec![vec![]], panic_at: None, late_mailbox: false, reply_take: None });
+        c.nodes.push(NodeSpec { name: format!("leaf{}", i), parent: None, cap: *rng.pick(&[1u8, 2, 16]), registered: true, dead: false, outs: vec![], reqs: vec![], init: vec![], on: vec![vec![]], panic_at: None, late_mailbox: false, reply_take: None, sync_inputs: false });
     }
     c.cfg.threads = rng.range(2, 4) as u8;
     c.script = vec![Cmd::ProcessEvent { target: 0, kind: 0 }];
@@ -232,7 +232,7 @@ fn gen_c06(rng: &mut Rng, thorough: bool) -> Case {
     // sent, so no loss may be reported.
     if rng.pct(20) {
         let kinds = c.nodes[0].on.len();
-        c.nodes.push(NodeSpec { name: format!("gone{}", c.nodes.len()), parent: None, cap: 1, registered: true, dead: true, outs: vec![], reqs: vec![], init: vec![], on: vec![vec![]; kinds], panic_at: None, late_mailbox: false, reply_take: None });
+        c.nodes.push(NodeSpec { name: format!("gone{}", c.nodes.len()), parent: None, cap: 1, registered: true, dead: true, outs: vec![], reqs: vec![], init: vec![], on: vec![vec![]; kinds], panic_at: None, late_mailbox: false, reply_take: None, sync_inputs: false });
         let t = (c.nodes.len() - 1) as u16;
         let pos = rng.usize(c.script.len() + 1);
         c.script.insert(pos, Cmd::ProcessEvent { target: t, kind: 0 });
@@ -263,7 +263,7 @@ fn gen_big_bench(rng: &mut Rng) -> Case {
         // a few init-time pings to the next model (kept and processed after its own init)
         let outs = if i + 1 < n && rng.pct(25) { vec![vec![Edge { cid: 50_000 + i as u32, target: Target::Node((i + 1) as u16), map: rng.pct(50), filter: None }]] } else { vec![] };
         let init = if !outs.is_empty() && rng.pct(60) { vec![Op::Send { port: 0, kind: 0 }] } else { vec![] };
-        c.nodes.push(NodeSpec { name: format!("m{}", i), parent, cap: 16, registered: true, dead: false, outs, reqs: vec![], init, on: vec![vec![]], panic_at: None, late_mailbox: false, reply_take: None });
+        c.nodes.push(NodeSpec { name: format!("m{}", i), parent, cap: 16, registered: true, dead: false, outs, reqs: vec![], init, on: vec![vec![]], panic_at: None, late_mailbox: false, reply_take: None, sync_inputs: false });
     }
     c.cfg.threads = rng.range(2, 4) as u8;
     c.script = vec![Cmd::ProcessEvent { target: rng.usize(n) as u16, kind: 0 }, Cmd::ProcessEvent { target: (n - 1) as u16, kind: 0 }];
